@@ -129,8 +129,126 @@ func (g *pgen) lit() string {
 	}
 }
 
+// pickVal draws a visible name; with shadowing the name means its innermost binding.
 func (g *pgen) pickVal() gvar {
-	return g.vals[g.uni(len(g.vals), "var")]
+	v := g.vals[g.uni(len(g.vals), "var")]
+	for i := len(g.vals) - 1; i >= 0; i-- {
+		if g.vals[i].name == v.name {
+			return g.vals[i]
+		}
+	}
+	return v
+}
+
+// shadowStmt emits a nested scope that redeclares a visible name (var or :=), assigns to and reads that
+// name inside, and reads it again after the scope has ended, where it must be the untouched outer variable.
+func (g *pgen) shadowStmt(c stmtCtx) {
+	var cand []gvar
+	seen := map[string]bool{}
+	for i := len(g.vals) - 1; i >= 0; i-- {
+		v := g.vals[i]
+		if seen[v.name] {
+			continue
+		}
+		seen[v.name] = true
+		if g.o.Faithful && !isRegName(v.name) {
+			continue // a redeclared plain name is a RAM variable: outside the faithful opcode set
+		}
+		cand = append(cand, v)
+	}
+	if len(cand) == 0 || len(g.vals) < 2 {
+		g.emit("%s = %s", g.pickVal().name, g.expr(2))
+		return
+	}
+	x := cand[g.uni(len(cand), "shadowed")]
+	y := x
+	for i := 0; i < len(g.vals) && y.name == x.name; i++ {
+		y = g.vals[(g.uni(len(g.vals), "other")+i)%len(g.vals)]
+	}
+	if y.name == x.name {
+		g.emit("%s = %s", x.name, g.expr(2))
+		return
+	}
+	inner := stmtCtx{c.inFunc, c.depth + 1}
+	body := func(own bool) {
+		// own: the body is a block (its own variable map in the compiler); false: a case body or the init of a for
+		if g.pct(60, "shadowvar") {
+			g.emit("var %s %s", x.name, g.typ)
+		} else {
+			g.emit("%s := %s", x.name, g.expr(1))
+		}
+		g.vals = append(g.vals, gvar{x.name, g.top().m})
+		if g.pct(85, "assigninside") {
+			g.emit("%s = %s", x.name, g.expr(1))
+		}
+		if g.pct(30, "incinside") {
+			g.emit("%s++", x.name)
+		}
+		g.emit("%s = %s + %s", y.name, y.name, x.name)
+		for i, n := 0, rapid.IntRange(0, 2).Draw(g.t, "nshadowbody"); own && i < n; i++ {
+			g.stmt(inner)
+		}
+	}
+	form := g.uni(20, "shadowform")
+	switch {
+	case form < 6: // if true { … }
+		g.emit("if true {")
+		rc := g.pushCtx()
+		g.block(0, inner, func() { body(true) })
+		rc()
+		g.emit("}")
+	case form < 9: // if false { } else { … }
+		g.emit("if false {")
+		rc := g.pushCtx()
+		g.block(0, inner, func() { g.emit("%s = %s", y.name, g.expr(1)) })
+		g.emit("} else {")
+		g.block(0, inner, func() { body(true) })
+		rc()
+		g.emit("}")
+	case form < 14: // for { …; break }
+		g.emit("for {")
+		rc := g.pushCtx()
+		g.inLoop++
+		g.block(0, inner, func() { body(true); g.emit("break") })
+		g.inLoop--
+		rc()
+		g.emit("}")
+	case form < 17: // a plain block
+		g.emit("{")
+		g.block(0, inner, func() { body(true) })
+		g.emit("}")
+	case form < 19: // a case body: a scope in Go, none in the compiler
+		g.emit("switch %s {", g.expr(0))
+		rc := g.pushCtx()
+		n := len(g.vals)
+		g.emit("default:")
+		g.ind++
+		body(false)
+		g.ind--
+		g.vals = g.vals[:n]
+		rc()
+		g.emit("}")
+	default: // the init clause of a for: a scope in Go, none in the compiler
+		rc := g.pushCtx()
+		n := len(g.vals)
+		g.emit("for %s := %s; ; %s++ {", x.name, g.lit(), x.name)
+		g.vals = append(g.vals, gvar{x.name, g.top().m})
+		g.inLoop++
+		g.block(0, inner, func() {
+			g.emit("%s = %s + %s", y.name, y.name, x.name)
+			g.emit("break")
+		})
+		g.inLoop--
+		g.vals = g.vals[:n]
+		rc()
+		g.emit("}")
+	}
+	// after the scope: the name is the outer variable again
+	if !c.inFunc && len(g.outs) > 0 && g.pct(50, "writeafter") {
+		g.emit("bondgo.IOWrite(%s, %s)", g.outs[g.uni(len(g.outs), "out")], x.name)
+	} else {
+		g.emit("%s = %s + %s", y.name, y.name, x.name)
+	}
 }
 
 var unsupportedOps = []string{"-", "&", "|", "^", "/", "%", "<<"}
@@ -253,8 +371,14 @@ func (g *pgen) stmt(c stmtCtx) {
 		k = k % 62
 	}
 	switch {
-	case k < 30: // assignment
+	case k < 26: // assignment
 		g.emit("%s = %s", g.pickVal().name, g.expr(2))
+	case k < 30: // a nested scope that shadows a visible name
+		if c.depth >= 3 {
+			g.emit("%s = %s", g.pickVal().name, g.expr(2))
+			return
+		}
+		g.shadowStmt(c)
 	case k < 34: // parallel assignment
 		if len(g.vals) < 2 {
 			g.emit("%s = %s", g.pickVal().name, g.expr(1))
@@ -454,6 +578,9 @@ func (g *pgen) valueFunc() {
 	for i, n := 0, rapid.IntRange(0, 3).Draw(g.t, "nfstmt"); i < n; i++ {
 		g.stmt(stmtCtx{inFunc: true, depth: 1})
 	}
+	if g.pct(10, "fshadow") {
+		g.shadowStmt(stmtCtx{inFunc: true, depth: 1})
+	}
 	ret := g.expr(2)
 	for _, v := range g.vals[np:] {
 		ret += " + " + v.name
@@ -507,6 +634,9 @@ func (g *pgen) routine(gidOut []int, gidIn []int, extra func()) {
 	}
 	for i, n := 0, rapid.IntRange(0, 5).Draw(g.t, "nprologue"); i < n; i++ {
 		g.stmt(stmtCtx{depth: 0})
+	}
+	if g.pct(12, "pshadow") {
+		g.shadowStmt(stmtCtx{depth: 0})
 	}
 	// the endless loop: something changes every round and at least one write happens
 	nTop := len(g.vals)
